@@ -245,6 +245,107 @@ func c12NegateKeepsName(c *Ctx) {
 		}
 		r.Check(len(nameProblems) == 0, "C12.J7", key, "", "the negated rule carries the receiver's Name", "the negated rule does not carry the receiver's Name ("+strings.Join(nameProblems, "; ")+"): a trace entry of a negated "+k.Obj().Name()+" names no component")
 	}
+	// and every constructor gives the rule a name in the first place: the value it returns has a non-empty constant Name, or
+	// the name it was given as a parameter
+	pk := m.prof
+	// base constructors that a naming constructor of the same kind wraps (newCount under newMinCount) are judged through
+	// their wrappers
+	ctorKind := map[types.Object]*types.Named{}
+	for _, f := range pk.Syntax {
+		for _, d := range f.Decls {
+			if fd, ok := d.(*ast.FuncDecl); ok && fd.Body != nil && fd.Recv == nil && fd.Type.Results != nil && len(fd.Type.Results.List) == 1 {
+				if tv, ok := pk.TypesInfo.Types[fd.Type.Results.List[0].Type]; ok {
+					if nt := namedOf(tv.Type); nt != nil && m.atomic[nt] {
+						ctorKind[pk.TypesInfo.Defs[fd.Name]] = nt
+					}
+				}
+			}
+		}
+	}
+	wrapped := map[types.Object]bool{}
+	for _, f := range pk.Syntax {
+		for _, d := range f.Decls {
+			fd, ok := d.(*ast.FuncDecl)
+			if !ok || fd.Body == nil {
+				continue
+			}
+			self := pk.TypesInfo.Defs[fd.Name]
+			kind, isCtor := ctorKind[self]
+			if !isCtor {
+				continue
+			}
+			ast.Inspect(fd.Body, func(n ast.Node) bool {
+				if id, ok := n.(*ast.Ident); ok {
+					if o := pk.TypesInfo.Uses[id]; o != nil && o != self && ctorKind[o] == kind {
+						wrapped[o] = true
+					}
+				}
+				return true
+			})
+		}
+	}
+	for _, f := range pk.Syntax {
+		if strings.HasSuffix(p.Fset.Position(f.Pos()).Filename, "_test.go") || strings.HasSuffix(p.Fset.Position(f.Pos()).Filename, "test_utils.go") {
+			continue
+		}
+		for _, d := range f.Decls {
+			fd, ok := d.(*ast.FuncDecl)
+			if !ok || fd.Body == nil || fd.Recv != nil || fd.Type.Results == nil || len(fd.Type.Results.List) != 1 {
+				continue
+			}
+			tv, ok := pk.TypesInfo.Types[fd.Type.Results.List[0].Type]
+			if !ok {
+				continue
+			}
+			nt := namedOf(tv.Type)
+			if nt == nil || !m.atomic[nt] || !hasField(nt, "Name") || wrapped[pk.TypesInfo.Defs[fd.Name]] {
+				continue
+			}
+			var rets []*Sym
+			proto := &symWalker{Inline: samePkgInline(pk)}
+			proto.OnReturn = func(w *symWalker, ret *ast.ReturnStmt, results []*Sym) {
+				if w.depth == 0 && len(results) == 1 {
+					rets = append(rets, results[0])
+				}
+			}
+			p.SymWalk(pk, fd, proto, nil)
+			key := relOf(pk) + "." + fd.Name.Name + "#names-the-component"
+			if len(rets) == 0 {
+				continue
+			}
+			okAll, why := true, ""
+			for _, rv := range rets {
+				alts := []*Sym{rv}
+				if rv.K == symChoice {
+					alts = rv.Parts
+				}
+				for _, av := range alts {
+					if av.K != symStruct {
+						continue // a failed parse returns the zero value with an error; not a rule
+					}
+					nm, ok := av.FieldDeep("Name")
+					if !ok {
+						if len(av.Order) == 0 {
+							continue // zero value
+						}
+						okAll, why = false, "the rule is built without a Name"
+						continue
+					}
+					if c, isConst := nm.ConstString(); isConst {
+						if c == "" {
+							okAll, why = false, "the rule is built with an empty Name"
+						}
+						continue
+					}
+					if nm.K == symVar || nm.K == symField || nm.K == symChoice || nm.K == symCall {
+						continue // the caller's name, or a name chosen by an operator table
+					}
+					okAll, why = false, "the Name of the rule is "+nm.String()
+				}
+			}
+			r.Check(okAll, "C12.J7", key, p.Pos(fd.Pos()), "the constructed rule has a component name", why+": its trace entries name no component")
+		}
+	}
 }
 
 // ---- J1
